@@ -5,7 +5,10 @@
    templates / data / verdicts / reasons is read from the trace file itself. *)
 EXTENDS NdnPit, Json, IOUtils, TLCExt
 
-Traces == ndJsonDeserialize(IOEnv.TRACE_FILE)
+\* the parsed trace file is kept in a TLC register: as a plain definition TLC re-evaluates (re-parses) it at every use
+TraceReg == 1000000
+ASSUME TLCSet(TraceReg, ndJsonDeserialize(IOEnv.TRACE_FILE))
+Traces == TLCGet(TraceReg)
 VARIABLES tid, l
 tvars == <<vars, tid, l>>
 
